@@ -263,6 +263,11 @@ func vgOp(ws []string) (string, bool) {
 		if len(ws) > 2 {
 			secret = ws[2]
 		}
+		if scheme == "token" && len(secret) > 1 && secret[0] == 'z' {
+			if n, ok := vInt(secret[1:]); ok {
+				secret = strings.Repeat("A", n)
+			}
+		}
 		if scheme == "token" && secret == "last" {
 			secret = vgLastToken
 			msg.Login = &MsgClientLogin{Id: "1", Scheme: scheme, Secret: []byte(secret)}
@@ -270,7 +275,13 @@ func vgOp(ws []string) (string, bool) {
 			msg.Login = &MsgClientLogin{Id: "1", Scheme: scheme, Secret: []byte(secret)}
 		}
 	case "acc":
-		msg.Acc = &MsgClientAcc{Id: "1", User: vOptStr(kvOr(kv, "user")), TmpScheme: kv["tmp"], TmpSecret: []byte(kv["tmpsecret"])}
+		tmpSecret := kv["tmpsecret"]
+		if kv["tmp"] == "token" && len(tmpSecret) > 1 && tmpSecret[0] == 'z' {
+			if n, ok := vInt(tmpSecret[1:]); ok {
+				tmpSecret = strings.Repeat("A", n)
+			}
+		}
+		msg.Acc = &MsgClientAcc{Id: "1", User: vOptStr(kvOr(kv, "user")), TmpScheme: kv["tmp"], TmpSecret: []byte(tmpSecret)}
 		if kv["scheme"] != "" {
 			msg.Acc.Scheme = kv["scheme"]
 			msg.Acc.Secret = []byte(kv["secret"])
